@@ -1,3 +1,3 @@
 from driver import Unit, Inst
 def units(tier): return [Unit('dbg', shim='dbg.cpp', ctors=False)]
-def instances(tier): return [Inst('dbg', f, unwind=12, timeout=100, recursion=4) for f in ('h_dbg_1','h_dbg_2','h_dbg_3')]
+def instances(tier): return [Inst('dbg', f, unwind=40, timeout=300, recursion=3, unwindset={'vp_memmove.0': 60, 'vp_memmove.1': 60, 'vp_memcpy.0': 60}) for f in ('h_dbg_rt0','h_dbg_rt1')]
